@@ -33,6 +33,27 @@ type Req struct {
 	V4  *dhcpv4.DHCPv4
 	V6  *dhcpv6.Message
 	Xid uint32
+	// Lib: use the library's own matcher constructor IsMessageType(First, Rest...) for this call instead of the MatchFn
+	// (which is then only consulted to observe what the matcher is shown)
+	Lib *LibMatch
+}
+
+// LibMatch: the arguments of IsMessageType.  Rest is one list that the caller keeps and spreads into every call (a
+// slice with spare capacity, as a configuration value would be); it holds one message type no script uses.
+type LibMatch struct {
+	First int
+	Rest  *SharedTypes
+}
+
+type SharedTypes struct {
+	v4 []dhcpv4.MessageType
+	v6 []dhcpv6.MessageType
+}
+
+func NewSharedTypes() *SharedTypes {
+	s := &SharedTypes{v4: make([]dhcpv4.MessageType, 1, 8), v6: make([]dhcpv6.MessageType, 1, 8)}
+	s.v4[0], s.v6[0] = dhcpv4.MessageTypeInform, dhcpv6.MessageTypeInformationRequest
+	return s
 }
 
 // Edit changes the request IN PLACE (same message object): new transaction id, and an option whose value tells the
@@ -206,8 +227,15 @@ func xid4(x uint32) (t dhcpv4.TransactionID) {
 	return
 }
 
+// OtherHW: the hardware address of the "wrong-hw" datagrams; requests whose transaction id is 3 mod 4 carry it as their
+// chaddr (a caller asking on behalf of another machine): replies are still filtered by the CLIENT's hardware address.
+var OtherHW = net.HardwareAddr{2, 0, 0x5e, 0x10, 0, 0x02}
+
 func (V4) Request(xid uint32, extra int) Req {
 	p := &dhcpv4.DHCPv4{OpCode: dhcpv4.OpcodeBootRequest, HWType: 1, TransactionID: xid4(xid), ClientHWAddr: HW, Options: dhcpv4.Options{}}
+	if xid%4 == 3 {
+		p.ClientHWAddr = append(net.HardwareAddr{}, OtherHW...)
+	}
 	p.UpdateOption(dhcpv4.OptMessageType(dhcpv4.MessageTypeDiscover))
 	if extra > 0 {
 		p.UpdateOption(dhcpv4.OptGeneric(dhcpv4.GenericOptionCode(225), make([]byte, extra%200)))
@@ -226,7 +254,7 @@ func (V4) Datagram(class string, xid uint32, nonce int, msgType int) []byte {
 	case "wrong-xid":
 		p.TransactionID = xid4(xid ^ 0x5a5a0000)
 	case "wrong-hw":
-		p.ClientHWAddr = net.HardwareAddr{2, 0, 0x5e, 0x10, 0, 0x02}
+		p.ClientHWAddr = append(net.HardwareAddr{}, OtherHW...)
 	case "wrong-hw-empty":
 		p.ClientHWAddr = nil
 	case "wrong-opcode":
@@ -277,6 +305,15 @@ func (c *c4) SendAndRead(ctx context.Context, dest *net.UDPAddr, req Req, m Matc
 	var mm nclient4.Matcher
 	if m != nil {
 		mm = func(p *dhcpv4.DHCPv4) bool { return m(resp4(p)) }
+	}
+	if req.Lib != nil {
+		lm := nclient4.IsMessageType(dhcpv4.MessageType(req.Lib.First), req.Lib.Rest.v4...)
+		mm = func(p *dhcpv4.DHCPv4) bool {
+			if m != nil {
+				m(resp4(p))
+			}
+			return lm(p)
+		}
 	}
 	p, err := c.c.SendAndRead(ctx, dest, req.V4, mm)
 	return resp4(p), p != nil, err
@@ -412,6 +449,15 @@ func (c *c6) SendAndRead(ctx context.Context, dest *net.UDPAddr, req Req, m Matc
 	var mm nclient6.Matcher
 	if m != nil {
 		mm = func(p *dhcpv6.Message) bool { return m(resp6(p)) }
+	}
+	if req.Lib != nil {
+		lm := nclient6.IsMessageType(dhcpv6.MessageType(req.Lib.First), req.Lib.Rest.v6...)
+		mm = func(p *dhcpv6.Message) bool {
+			if m != nil {
+				m(resp6(p))
+			}
+			return lm(p)
+		}
 	}
 	p, err := c.c.SendAndRead(ctx, dest, req.V6, mm)
 	return resp6(p), p != nil, err
